@@ -1,2 +1,393 @@
-(* placeholder, theorems follow *)
-From QV Require Import Lib.Tac Sys.Trace Sys.MonC08.
+(** C08 — Every connection terminates cleanly and exactly once.
+    Property theorems over the lifecycle model Model/Lifecycle.v (read from
+    quinn-proto/src/connection/mod.rs; tied to the code by the trace monitors Sys/MonC08.v and
+    Sys/MonLifecycle.v on every run, and by the [idle_negotiate] hook for the pure negotiation).
+    All theorems quantify over ALL operation sequences [h] from [Connection::new] ([init], any
+    local configuration) with arbitrary environment inputs: instants, PTO values, which keys
+    exist, anti-amplification / congestion / pacing state, what each received packet turned out
+    to be. A peer that crashes = any history after which no [OpPacket] occurs.
+
+    [KnownClass]: histories in which an ERROR RESULT of packet processing (stateless reset,
+    transport error) arrives while the connection is already closed. [handle_packet] then stores
+    the error (and the state derived from it) unconditionally — known_findings.txt, key
+    lost-after-local-close; the repository's own test client_stateless_reset pins it. The same
+    predicate excludes the confidentiality limit being EXCEEDED (not merely reached) while the
+    close packet is built (> 2^23 packets under handshake keys; unreachable). Proofs:
+    Proofs/LifecycleInv.v, Proofs/LifecycleProofs.v. *)
+From QV Require Import Lib.Tac Lib.Corr Model.Lifecycle Proofs.LifecycleInv Proofs.LifecycleProofs.
+Open Scope Z_scope.
+
+Definition KnownClass (idle_ms ka_us : option Z) (h : list op) : Prop :=
+  KnownClassFrom (init idle_ms ka_us) h.
+
+Lemma not_known : forall i k h, ~ KnownClass i k h -> guarded (init i k) h = true.
+Proof. intros i k h N. unfold KnownClass, KnownClassFrom in N. destruct (guarded (init i k) h); congruence. Qed.
+
+(** * ConnectionLost: at most once; never after a local close; with the peer's code *)
+Theorem C08_lost_reported_at_most_once_except_known : forall i k h,
+  ~ KnownClass i k h -> count is_lost (outs_from (init i k) h) <= 1.
+Proof.
+  intros i k h N. pose proof (lost_bound h (init i k) (inv_init i k) (not_known i k h N)) as B.
+  destruct (can_report (init i k)); lia.
+Qed.
+Print Assumptions C08_lost_reported_at_most_once_except_known.
+
+(** After [close()] took effect (the connection was not yet closed), [poll] never yields
+    ConnectionLost, whatever happens next (outside the known class). *)
+Theorem C08_never_lost_after_local_close : forall i k h1 now code pto h2,
+  ~ KnownClass i k (h1 ++ OpClose now code pto :: h2) ->
+  is_closed (st (run_state (init i k) h1)) = false ->
+  count is_lost (outs_from (run_state (init i k) (h1 ++ [OpClose now code pto])) h2) = 0.
+Proof.
+  intros i k h1 now code pto h2 N C.
+  pose proof (not_known _ _ _ N) as G.
+  replace (h1 ++ OpClose now code pto :: h2) with ((h1 ++ [OpClose now code pto]) ++ h2) in G
+    by (rewrite <- app_assoc; reflexivity).
+  rewrite guarded_app in G. apply andb_true_iff in G. destruct G as [G1 G2].
+  pose proof (inv_run _ _ (inv_init i k) G1) as I.
+  pose proof (lost_bound h2 _ I G2) as B.
+  rewrite guarded_app in G1. apply andb_true_iff in G1. destruct G1 as [G0 _].
+  pose proof (inv_run _ _ (inv_init i k) G0) as I0.
+  pose proof (open_no_error _ I0 C) as E0.
+  assert (X : can_report (run_state (init i k) (h1 ++ [OpClose now code pto])) = false).
+  { unfold run_state. rewrite fold_left_app. cbn [fold_left]. fold (run_state (init i k) h1).
+    unfold step', step. cbn [step_gen fst]. unfold close_inner, can_report. rewrite C. prj.
+    rewrite E0. reflexivity. }
+  rewrite X in B. pose proof (count_nonneg is_lost (outs_from (run_state (init i k) (h1 ++ [OpClose now code pto])) h2)). lia.
+Qed.
+Print Assumptions C08_never_lost_after_local_close.
+
+(** A peer close received by a live connection is reported with exactly the code the frame
+    carried (the frame of an Initial/Handshake packet carries what the SENDER put there: see
+    [C08_local_close_announced_at_once] — APPLICATION_ERROR in place of an application code);
+    the very next [poll] without other pending events delivers it, and whatever is polled later
+    never reports a different reason. *)
+Theorem C08_peer_close_reported_with_its_code : forall i k h1 now r pi pc sr h2,
+  ~ KnownClass i k (h1 ++ OpPacket now (PCloseData r) pi pc sr :: h2) ->
+  is_closed (st (run_state (init i k) h1)) = false ->
+  let s := run_state (init i k) (h1 ++ [OpPacket now (PCloseData r) pi pc sr]) in
+  snd (step s (OpPoll false)) = OLost (peer_reason r) /\
+  Forall (fun o => forall r', o = OLost r' -> r' = peer_reason r) (outs_from s h2).
+Proof.
+  intros i k h1 now r pi pc sr h2 N C s.
+  pose proof (not_known _ _ _ N) as G.
+  replace (h1 ++ OpPacket now (PCloseData r) pi pc sr :: h2)
+    with ((h1 ++ [OpPacket now (PCloseData r) pi pc sr]) ++ h2) in G
+    by (rewrite <- app_assoc; reflexivity).
+  rewrite guarded_app in G. apply andb_true_iff in G. destruct G as [G1 G2].
+  pose proof (inv_run _ _ (inv_init i k) G1) as I. fold s in I, G2.
+  assert (E : error s = Some (peer_reason r) /\ is_closed (st s) = true).
+  { unfold s, run_state. rewrite fold_left_app. cbn [fold_left]. fold (run_state (init i k) h1).
+    set (s0 := run_state (init i k) h1) in *.
+    unfold step', step. cbn [step_gen fst]. rewrite hp_split. cbn [Lifecycle.authed andb].
+    rewrite C. cbn [negb]. unfold hp_rest. rewrite auth_st.
+    cbn [process]. rewrite auth_st.
+    destruct (st s0) eqn:Es; try discriminate C; prj; auto. }
+  destruct E as [E Cl]. split.
+  - cbn [step step_gen poll]. unfold poll. rewrite E. reflexivity.
+  - pose proof (lost_is_recorded h2 s I G2 Cl) as F. eapply Forall_impl; [|exact F].
+    cbn. intros a Ha r' Er. specialize (Ha r' Er). congruence.
+Qed.
+Print Assumptions C08_peer_close_reported_with_its_code.
+
+(** The known class is real: close(); a stateless reset arrives; poll reports ConnectionLost. *)
+Theorem C08_lost_after_local_close_refuted :
+  let h := [OpPacket 0 PEstablish 1000 1000 true; OpClose 10 7 1000;
+            OpPacket 20 PReset 1000 1000 true; OpPoll false] in
+  KnownClass (Some 30000) None h /\
+  outs_from (init (Some 30000) None) h = [ONone; ONone; ONone; OLost RReset].
+Proof. vm_compute. split; reflexivity. Qed.
+Print Assumptions C08_lost_after_local_close_refuted.
+
+(** * Drained exactly once *)
+(** [Drained] events emitted so far plus those still queued = 1 if the state is Drained, else 0;
+    hence at most one is ever delivered, and exactly one path step pushes it. *)
+Theorem C08_drained_once : forall i k h, ~ KnownClass i k h ->
+  let s := run_state (init i k) h in
+  count is_epdrained (outs_from (init i k) h) + epq s = (if is_drained (st s) then 1 else 0) /\
+  count is_epdrained (outs_from (init i k) h) <= 1 /\ 0 <= epq s.
+Proof.
+  intros i k h N s.
+  destruct (drained_count h (init i k) (inv_init i k) (not_known i k h N)) as [A _].
+  fold s in A. unfold newly_drained in A. cbn [init st epq is_drained negb] in A.
+  rewrite andb_true_r in A.
+  pose proof (inv_run _ _ (inv_init i k) (not_known i k h N)) as (_ & _ & _ & _ & Q & _).
+  fold s in Q. pose proof (count_nonneg is_epdrained (outs_from (init i k) h)).
+  destruct (is_drained (st s)); repeat split; lia.
+Qed.
+Print Assumptions C08_drained_once.
+
+(** Drained is absorbing (the connection is never resurrected) outside the known class. *)
+Theorem C08_drained_is_final : forall i k h1 h2, ~ KnownClass i k (h1 ++ h2) ->
+  st (run_state (init i k) h1) = Drained -> st (run_state (init i k) (h1 ++ h2)) = Drained.
+Proof.
+  intros i k h1 h2 N D. pose proof (not_known _ _ _ N) as G. rewrite guarded_app in G.
+  apply andb_true_iff in G. destruct G as [G1 G2].
+  pose proof (inv_run _ _ (inv_init i k) G1) as I.
+  destruct (drained_count h2 _ I G2) as [_ B]. unfold run_state in *. rewrite fold_left_app.
+  rewrite D in B. specialize (B eq_refl). destruct (st (fold_left step' h2 _)); try discriminate B. reflexivity.
+Qed.
+Print Assumptions C08_drained_is_final.
+
+(** Inside the known class a Drained connection can come back and be drained twice. *)
+Theorem C08_drained_twice_refuted_in_known_class :
+  let h := [OpPacket 0 (PTransportError AEAD_LIMIT_REACHED false) 1 1 true;
+            OpPacket 1 (PTransportError 10 false) 1 1 true; OpPacket 2 PReset 1 1 true;
+            OpPollEndpoint; OpPollEndpoint] in
+  KnownClass None None h /\
+  count is_epdrained (outs_from (init None None) h) = 2.
+Proof. vm_compute. split; reflexivity. Qed.
+Print Assumptions C08_drained_twice_refuted_in_known_class.
+
+(** * The Close timer bounds the drain *)
+(** In every reachable state: the operation (at instant [op_time o], with the environment's PTO
+    [op_pto o]) that takes a live connection into Closed/Draining arms Timer::Close at exactly
+    [op_time o + 3 * op_pto o]; no later operation moves that deadline while the connection is
+    closing; and [handle_timeout] at or after the deadline yields Drained, pushing the one
+    Drained event. So the connection is drained within three probe timeouts of its close
+    provided [handle_timeout] is called when [poll_timeout] says so. *)
+Theorem C08_close_timer_bounds_drain : forall i k h, ~ KnownClass i k h ->
+  let s := run_state (init i k) h in
+  (forall o, guard s o = true -> is_closed (st s) = false -> is_closing (st (step' s o)) = true ->
+     t_close (step' s o) = Some (op_time o + 3 * op_pto o)) /\
+  (forall o, guard s o = true -> is_closing (st s) = true -> is_closing (st (step' s o)) = true ->
+     t_close (step' s o) = t_close s) /\
+  (is_closing (st s) = true -> exists d, t_close s = Some d /\
+     forall now, d <= now -> st (handle_timeout s now) = Drained /\
+                             epq (handle_timeout s now) = epq s + 1).
+Proof.
+  intros i k h N s. pose proof (inv_run _ _ (inv_init i k) (not_known i k h N)) as I. fold s in I.
+  split; [|split].
+  - intros o G. apply (close_timer_step s o I G).
+  - intros o G. apply (close_timer_step s o I G).
+  - intros C. pose proof I as (_ & _ & I3 & _). destruct (t_close s) as [d|] eqn:T.
+    + exists d. split; [reflexivity|]. intros now L. apply (close_timer_fires s d now); auto.
+    + exfalso. apply (I3 C). reflexivity.
+Qed.
+Print Assumptions C08_close_timer_bounds_drain.
+
+(** * After Drained: silence *)
+(** No Close / Idle / KeepAlive timer is armed (a KeyDiscard deadline is not modelled and
+    triggers no output), [poll_transmit] returns None whatever the environment, [handle_timeout]
+    changes nothing, no further Drained event is produced (C08_drained_once) and ConnectionLost
+    is not repeated (C08_lost_reported_at_most_once_except_known). That [poll] delivers no
+    stream data any more is NOT a theorem of this model (stream events are the [other] input):
+    it is checked on the traces only (MonC08: no EVENT record after Drained). *)
+Theorem C08_after_drain_silence : forall i k h, ~ KnownClass i k h ->
+  let s := run_state (init i k) h in
+  st s = Drained ->
+  t_close s = None /\ t_idle s = None /\ t_ka s = None /\
+  (forall g now e, poll_transmit_gen g s now e = (s, ONone)) /\
+  (forall now, handle_timeout s now = s).
+Proof.
+  intros i k h N s D. apply drained_silent; [|exact D].
+  apply inv_run; [apply inv_init|apply not_known; exact N].
+Qed.
+Print Assumptions C08_after_drain_silence.
+
+(** * Idle timeout window *)
+(** TimedOut is recorded only by [handle_timeout(now)] with the Idle deadline [d <= now]. *)
+Theorem C08_timed_out_only_at_deadline : forall i k h o, ~ KnownClass i k (h ++ [o]) ->
+  let s := run_state (init i k) h in
+  error (step' s o) = Some RTimedOut -> error s <> Some RTimedOut ->
+  exists now d, o = OpTimeout now /\ t_idle s = Some d /\ d <= now.
+Proof.
+  intros i k h o N s. pose proof (not_known _ _ _ N) as G. rewrite guarded_app in G.
+  apply andb_true_iff in G. destruct G as [G1 G2]. cbn [guarded] in G2. rewrite andb_true_r in G2.
+  apply timedout_step; [apply inv_run; [apply inv_init|exact G1]|exact G2].
+Qed.
+Print Assumptions C08_timed_out_only_at_deadline.
+
+(** Lower bound: when the instants supplied by the environment do not go backwards ([mono]) and
+    no later transport-parameter update ENLARGES the timeout of an already armed timer
+    ([stable_run]; see the note below), every armed Idle deadline [d] lies at least the
+    negotiated idle timeout after EVERY authenticated packet the connection accepted — in
+    particular after the last one. With the previous theorem: TimedOut is reported no earlier
+    than the idle timeout after the last packet was received. *)
+Theorem C08_idle_window_lower : forall i k h d idle,
+  mono 0 h = true -> stable_run (init i k) h = true ->
+  let s := run_state (init i k) h in
+  t_idle s = Some d -> idle_timeout s = Some idle ->
+  Forall (fun t => t + idle <= d) (rx_times (init i k) h).
+Proof.
+  intros i k h d idle M S s Td Ti.
+  assert (K0 : K (init i k) []) by (intros ? ? ? ?; constructor).
+  pose proof (idle_lower h (init i k) [] 0 K0 (Forall_nil _) M S) as X. cbn [app] in X.
+  exact (X d idle Td Ti).
+Qed.
+Print Assumptions C08_idle_window_lower.
+
+(** Upper bound: every operation leaves the Idle deadline alone, stops the timer, or — only an
+    accepted authenticated packet or the first ack-eliciting transmission after one
+    ([restarts]) — re-arms it at exactly [instant + max(idle_timeout, 3 * PTO)]. So the deadline
+    in force is (last restarting event) + max(idle, 3 PTO), and a timer serviced on time reports
+    TimedOut no later than that. *)
+Theorem C08_idle_window_upper : forall s o,
+  t_idle (step' s o) = None \/ t_idle (step' s o) = t_idle s \/
+  exists idle, idle_timeout s = Some idle /\ restarts s o = true /\
+    t_idle (step' s o) = Some (op_time o + Z.max idle (3 * op_pto_idle o)).
+Proof.
+  intros s o. destruct (idle_step s o) as [_ [B|[[B _]|B]]]; auto.
+Qed.
+Print Assumptions C08_idle_window_upper.
+
+(** A connection that keeps receiving authenticated packets never times out: at any instant
+    less than the idle timeout after SOME accepted packet, [handle_timeout] does not record
+    TimedOut. (Keep-alive: the KeepAlive timer only queues a PING; what keeps the connection
+    alive is the peer's authenticated acknowledgement, an [OpPacket].) *)
+Theorem C08_fed_connection_never_times_out : forall i k h idle t now,
+  ~ KnownClass i k h -> mono 0 h = true -> stable_run (init i k) h = true ->
+  let s := run_state (init i k) h in
+  idle_timeout s = Some idle -> In t (rx_times (init i k) h) -> now < t + idle ->
+  error s <> Some RTimedOut -> error (handle_timeout s now) <> Some RTimedOut.
+Proof.
+  intros i k h idle t now N M S s Ti IN L E0 E1.
+  pose proof (not_known _ _ _ N) as G.
+  pose proof (inv_run _ _ (inv_init i k) G) as I. fold s in I.
+  destruct (timedout_step s (OpTimeout now) I eq_refl E1 E0) as (now' & d & Eo & Td & Ld).
+  inversion Eo; subst now'.
+  pose proof (C08_idle_window_lower i k h d idle M S Td Ti) as F.
+  rewrite Forall_forall in F. specialize (F t IN). lia.
+Qed.
+Print Assumptions C08_fed_connection_never_times_out.
+
+(** Note on [stable_run]. [reset_idle_timeout] returns early when [idle_timeout] is None and
+    never re-computes an armed deadline when [set_peer_params] changes the timeout. For a
+    server (parameters arrive with the first packet, negotiated <= local) and a 1-RTT client the
+    premise always holds. A 0-RTT client first negotiates with the REMEMBERED parameters; if the
+    server's real max_idle_timeout is larger, the timer armed under the old value stays until
+    the next packet restarts it.
+    When the server's real value is 0 while the client has none, the code AS FOUND kept the
+    timer armed under the old value for good: TimedOut although the negotiated idle timeout is
+    "none", whatever traffic follows (witness below, first found on this model, then replayed on
+    the real code by sim_c08 with CLIENT_IDLE_MS = 0, SERVER_IDLE2_MS = 0, ZERO_RTT: the
+    client reported TimedOut in the middle of a transfer). Repaired in /repo ("fix: stop the idle
+    timer when the negotiated idle timeout becomes disabled"); the model follows the repaired
+    code, [set_peer_params_prefix] is the code as found. *)
+Example C08_stale_idle_timer_refuted_before_fix :
+  let s1 := set_peer_params_prefix (init None None) (Some 1000) in
+  let s2 := handle_packet s1 0 POrdinary 1 1 true in
+  let s3 := set_peer_params_prefix s2 (Some 0) in
+  let s4 := handle_packet s3 500000 POrdinary 1 1 true in
+  let s5 := handle_timeout s4 1000000 in
+  idle_timeout s5 = None /\ snd (poll s5 false) = OLost RTimedOut.
+Proof. vm_compute. split; reflexivity. Qed.
+
+Example C08_stale_idle_timer_repaired :
+  let h := [OpPeerParams (Some 1000); OpPacket 0 POrdinary 1 1 true; OpPeerParams (Some 0);
+            OpPacket 500000 POrdinary 1 1 true; OpTimeout 1000000; OpPoll false] in
+  idle_timeout (run_state (init None None) h) = None /\
+  outs_from (init None None) h = [ONone; ONone; ONone; ONone; ONone; ONone].
+Proof. vm_compute. split; reflexivity. Qed.
+
+(** For every history: while no idle timeout is negotiated the Idle timer is not armed, hence
+    (with [C08_timed_out_only_at_deadline]) TimedOut is never reported by a connection whose
+    negotiated idle timeout is "none". *)
+Theorem C08_no_negotiated_timeout_no_idle_timer : forall i k h,
+  let s := run_state (init i k) h in
+  idle_timeout s = None -> t_idle s = None.
+Proof. intros i k h. exact (idle_armed_run h _ (idle_armed_init i k)). Qed.
+Print Assumptions C08_no_negotiated_timeout_no_idle_timer.
+
+Theorem C08_timed_out_needs_negotiated_timeout : forall i k h o, ~ KnownClass i k (h ++ [o]) ->
+  let s := run_state (init i k) h in
+  error (step' s o) = Some RTimedOut -> error s <> Some RTimedOut ->
+  exists idle, idle_timeout s = Some idle.
+Proof.
+  intros i k h o N s E E0.
+  destruct (C08_timed_out_only_at_deadline i k h o N E E0) as (now & d & _ & Td & _).
+  destruct (idle_timeout s) as [x|] eqn:I; [eexists; reflexivity|].
+  pose proof (C08_no_negotiated_timeout_no_idle_timer i k h I) as T. subst s. rewrite T in Td. discriminate Td.
+Qed.
+Print Assumptions C08_timed_out_needs_negotiated_timeout.
+
+(** [negotiate_max_idle_timeout] (tied to the Rust function by the [idle_negotiate] hook):
+    commutative, 0 = absent, the minimum of two present values, the present one otherwise. *)
+Theorem C08_negotiate_idle_laws :
+  (forall x y, negotiate x y = negotiate y x) /\
+  (forall x y, absent x = true -> negotiate x y = negotiate None y) /\
+  (forall x y, negotiate x y = None <-> absent x = true /\ absent y = true) /\
+  (forall a b, a <> 0 -> b <> 0 -> negotiate (Some a) (Some b) = Some (1000 * Z.min a b)) /\
+  (forall a y, a <> 0 -> absent y = true -> negotiate (Some a) y = Some (1000 * a)).
+Proof.
+  split; [exact negotiate_comm|]. split; [exact negotiate_absent|].
+  split; [exact negotiate_none|]. split; [exact negotiate_min|exact negotiate_one].
+Qed.
+Print Assumptions C08_negotiate_idle_laws.
+
+(** * A local close is announced at once *)
+(** After [close()] on a live connection the next [poll_transmit] — whatever the congestion /
+    pacing gate ([gate_blocked], [ack_eliciting] are arbitrary), provided the highest space has
+    keys, the path is not anti-amplification blocked and the confidentiality limit is not
+    exceeded — emits the close packet(s), clears the flag, and the frame of the highest space
+    announces the application's code in the Data space and APPLICATION_ERROR (no reason) in the
+    Initial / Handshake spaces. This is the repaired F1. *)
+Theorem C08_local_close_announced_at_once : forall s now code pto now' e,
+  is_closed (st s) = false -> has_keys e (highest e) = true ->
+  amp_blocked e = false -> conf e <> 2 ->
+  exists fr,
+    poll_transmit (close_inner s now pto (CApp code)) now' e =
+      (set_close (close_inner s now pto (CApp code)) false, OTxClose fr) /\
+    In (highest e, if highest e =? 2 then CApp code else CTransport APPLICATION_ERROR) fr /\
+    (forall sp a, In (sp, a) fr -> a = if sp =? 2 then CApp code else CTransport APPLICATION_ERROR).
+Proof. exact local_close_announced. Qed.
+Print Assumptions C08_local_close_announced_at_once.
+
+(** With the gate as it was before the repair (poll_transmit_gen true) a window-limited sender
+    with queued data announces nothing. *)
+Theorem C08_local_close_announced_refuted_before_fix :
+  exists s now code pto now' e,
+    is_closed (st s) = false /\ has_keys e (highest e) = true /\ amp_blocked e = false /\
+    conf e <> 2 /\
+    poll_transmit_gen true (close_inner s now pto (CApp code)) now' e =
+      (close_inner s now pto (CApp code), ONone).
+Proof.
+  exists (set_st (init (Some 30000) None) Established), 100, 7, 1000, 100,
+    {| keys_i := false; keys_h := false; keys_d := true; highest := 2; amp_blocked := false;
+       gate_blocked := true; ack_eliciting := true; data := true; pto_tx := 1000; conf := 0 |}.
+  vm_compute. repeat split; try reflexivity; discriminate.
+Qed.
+Print Assumptions C08_local_close_announced_refuted_before_fix.
+
+(** * Non-vacuity *)
+(** A full life: handshake, peer parameters, traffic, local close announced in the Data space,
+    the peer's close answers, Close timer fires, the Drained event is delivered once. *)
+Example C08_example_local_close :
+  let e := {| keys_i := false; keys_h := false; keys_d := true; highest := 2; amp_blocked := false;
+              gate_blocked := true; ack_eliciting := true; data := true; pto_tx := 40000; conf := 0 |} in
+  let h := [OpPacket 0 POrdinary 999000 999000 true; OpPeerParams (Some 10000);
+            OpPacket 30000 PEstablish 999000 999000 true; OpTransmit 30000 e;
+            OpClose 50000 7 40000; OpTransmit 50000 e; OpTransmit 50000 e;
+            OpPacket 80000 (PCloseData (CTransport 0)) 40000 40000 true;
+            OpTimeout 169999; OpTimeout 170000; OpPoll false; OpPollEndpoint; OpPollEndpoint;
+            OpTransmit 170000 e] in
+  guarded (init (Some 30000) (Some 5000000)) h = true /\ mono 0 h = true /\
+  stable_run (init (Some 30000) (Some 5000000)) h = true /\
+  outs_from (init (Some 30000) (Some 5000000)) h =
+    [ONone; ONone; ONone; ONone (* data held back: window full *); ONone;
+     OTxClose [(2, CApp 7)] (* the close is not *); ONone; ONone; ONone; ONone;
+     ONone; OEpDrained; ONone; ONone] /\
+  st (run_state (init (Some 30000) (Some 5000000)) h) = Drained.
+Proof. vm_compute. repeat split; reflexivity. Qed.
+
+(** Peer close before 1-RTT, then idle-timeout of another connection whose peer went silent. *)
+Example C08_example_peer_close_and_timeout :
+  let h1 := [OpPacket 0 POrdinary 999000 999000 true;
+             OpPacket 10 (PCloseEarly (CTransport APPLICATION_ERROR)) 999000 999000 true;
+             OpPoll false; OpPoll false; OpTimeout 2997010; OpPollEndpoint] in
+  let h2 := [OpPeerParams (Some 1000); OpPacket 0 POrdinary 100000 100000 true;
+             OpPacket 5000 PEstablish 100000 100000 true; OpTimeout 999999; OpTimeout 1005000;
+             OpPoll false; OpPollEndpoint] in
+  outs_from (init (Some 30000) None) h1 =
+    [ONone; ONone; OLost (RConnClosed APPLICATION_ERROR); ONone; ONone; OEpDrained] /\
+  guarded (init (Some 30000) None) h1 = true /\
+  outs_from (init (Some 30000) None) h2 = [ONone; ONone; ONone; ONone; ONone; OLost RTimedOut; OEpDrained] /\
+  rx_times (init (Some 30000) None) h2 = [0; 5000] /\
+  guarded (init (Some 30000) None) h2 = true /\ mono 0 h2 = true /\
+  stable_run (init (Some 30000) None) h2 = true.
+Proof. vm_compute. repeat split; reflexivity. Qed.
+
+Example C08_example_negotiate :
+  negotiate (Some 30000) (Some 10000) = Some 10000000 /\ negotiate None (Some 0) = None /\
+  negotiate (Some 0) (Some 2) = Some 2000 /\ negotiate (Some 5) None = Some 5000.
+Proof. vm_compute. repeat split; reflexivity. Qed.
